@@ -69,8 +69,8 @@ pub fn gencfg(prop: &str, tier: &str, rng: &mut Rng) -> GenCfg {
             g.mix.insert = 8;
             g.mix.remove = 8;
             g.mix.compute_remove = 2;
-            g.shapes = vec![Shape::Tree, Shape::TreeShrunk, Shape::AlmostTree, Shape::TreeAtThreshold];
-            g.hot_keys = (3, 8);
+            g.shapes = vec![Shape::Tree, Shape::TreeShrunk, Shape::AlmostTree, Shape::TreeAtThreshold, Shape::BigTree, Shape::BigTree];
+            g.hot_keys = (3, 10);
             g.ops = (3, 10);
             g.allow_set = false;
         }
@@ -238,6 +238,7 @@ pub fn plans(prop: &str, tier: &str, run_seed: u64, dry: &mut dyn FnMut(&Plan) -
             gc.hold_guard = 0;
             gc.allow_set = true;
             gc.swarm = false;
+            gc.shapes = vec![Shape::Plain, Shape::AtThreshold, Shape::Tiny, Shape::Tree, Shape::Tree, Shape::TreeShrunk, Shape::AlmostTree, Shape::TreeAtThreshold, Shape::Unallocated, Shape::BigTree];
             let mut prng = rng.fork(1);
             let mut program = gen::gen_program(&mut prng, &gc);
             let mut keys: Vec<u32> = crate::exec::universe(&program);
@@ -250,6 +251,18 @@ pub fn plans(prop: &str, tier: &str, run_seed: u64, dry: &mut dyn FnMut(&Plan) -
                 let mut p2 = gen::gen_program(&mut prng, &gc);
                 program.threads.push(p2.threads.remove(0));
                 program.cfg.facade.push(Facade::Guarded);
+            }
+            // variant: the thread that is stalled is itself a reader (it may be inside a tree bin
+            // holding the read lock), a writer then runs until it finishes or waits for it, and a
+            // second reader is the one under test
+            let reader_first = rng.chance(1, 3);
+            if reader_first {
+                let r1: Vec<Op> = (0..rng.range(1, 2)).map(|_| {
+                    let k = *rng.pick(&keys);
+                    if rng.chance(1, 2) { Op::Get(k) } else { Op::Contains(k) }
+                }).collect();
+                program.threads.insert(0, r1);
+                program.cfg.facade.insert(0, Facade::Guarded);
             }
             let reader = c12_reader_ops(&mut rng, &keys);
             program.threads.push(reader);
